@@ -95,6 +95,35 @@ META = {
         'note': PROOF_NOTE + 'the property-call proxy (native Wrappable._missing) is covered by the correspondence; known findings: non-callable and absent properties through try.',
         'technique': 'Lean 4 proof (fold/fmap commutation, induction over the step list) + random chain/accessor correspondence + same-run plain-vs-wrapped oracle',
     },
+    'C03': {
+        'text': 'Theorems over the Core reference evaluator, for all parameter lists, argument lists and keyword arguments (plain identifiers): the i-th parameter holds the i-th argument or nil, surplus arguments bind nothing; \\N, \\0, \\ are exactly '
+                'the arguments received; a keyword parameter takes the passed value else its default; \\name and \\_ are the keyword arguments received. Scoping (closure sees the defining scope and its later reassignments, a call writes '
+                'only its own fresh scope, receiver passing, receiver-less chains) is decided by the generated-program differential against the reference evaluator.',
+        'note': PROOF_NOTE + 'the model is the Core reference evaluator (a transcription of the evaluator for a sub-language); programs reach it through the real parser; built-ins outside the modelled set make a case unsupported. ',
+        'technique': 'Lean 4 proof (lookup lemmas over the layered bindings, injectivity of argument-variable names) + generated-program differential against a Lean reference evaluator fed by the real parser',
+    },
+    'C07': {
+        'text': 'Theorems over the Core reference evaluator, one per syntactic position of the property (operands, short-cut right operand, prefix operand, assigned value, condition, branches, range bounds, elements and unpacked elements, '
+                'arguments, unpacked arguments, keyword arguments, receiver, chain argument, callee, pair keys and values, ** parts, embedded-string parts, default values, statements, returned values, body of a called function): if the '
+                'sub-evaluation raises (kind, message) reaching state s\' then the enclosing construct raises the same (kind, message) and ends in exactly s\' - nothing later is evaluated. The statements chain through any nesting depth '
+                '(nested_example); pending defers run first; a ~ chain is the handler. Tied to the implementation by injecting a raise at every expression position of generated programs, with a model-free fail-stop oracle and the reference evaluator.',
+        'note': PROOF_NOTE + 'the model is the Core reference evaluator (a transcription of the evaluator for a sub-language); programs reach it through the real parser; built-ins outside the modelled set make a case unsupported. ',
+        'technique': 'Lean 4 proof (per-position strictness lemmas composing through nesting) + fault injection at every expression position with a model-free oracle and a reference-evaluator differential',
+    },
+    'C08': {
+        'text': 'The reference evaluator fixes the order (receiver, chain argument, positional then keyword arguments, elements, operands, bounds, pairs, string parts: as written, each once) and is a function of program and stdin. Theorems: binding '
+                'keyword parameters / keyword variables over ANY permutation of the pairs (the order a Go map range picks) yields the same scope; sorted printing makes the rendering of an object independent of the order of its pairs; duplicates '
+                'resolve to the first occurrence. Tied to the implementation by side-effecting generated programs compared with the reference evaluator, repeated in-process runs and runs in new processes. Two defects repaired (fix: 2d34d54, b380194), one known finding.',
+        'note': PROOF_NOTE + 'the model is the Core reference evaluator (a transcription of the evaluator for a sub-language); programs reach it through the real parser; built-ins outside the modelled set make a case unsupported. ',
+        'technique': 'Lean 4 proof (permutation invariance of map-range loops and of sorted printing, first-wins lemmas) + side-effect-order differential against the reference evaluator + repeated runs / new processes',
+    },
+    'C14': {
+        'text': 'Theorems over the Core reference evaluator for all states and arguments: new returns a fresh identity and leaves every existing iterator and scope unchanged, its scope holds the bound arguments and is enclosed in the literal\'s '
+                'defining scope; a chain iterates a copy (fresh identity, copied scope) so the iterator it is applied to is not advanced; recur re-points only its own iterator; next evaluates the body once in the iterator\'s scope; a guarded yield '
+                'with a false condition raises StopIterErr; the first yield is the result and the rest of the body still runs; a chain stops at the first StopIterErr and passes other errors on. Tied to the implementation by generated interleaved histories.',
+        'note': PROOF_NOTE + 'the model is the Core reference evaluator (a transcription of the evaluator for a sub-language); programs reach it through the real parser; built-ins outside the modelled set make a case unsupported. ',
+        'technique': 'Lean 4 proof (protocol facts of new / next / recur / chain copy over an explicit iterator store) + generated interleaved-history differential against the reference evaluator',
+    },
     'C19': {
         'text': 'Theorem over a model of what outlives an evaluation (the shared `_` error object with its stack trace, the scope handed to the next program, the constant scope): with the two repaired mechanisms (copy-on-evaluate of the shared '
                 'error, own scope per program) every program leaves the process state unchanged, hence for every history and every later program the observations (output, values read, error report lines) equal those of a new interpreter; '
